@@ -11,7 +11,7 @@ FUNCTIONS = ["erltf_serde::{to_term, from_term} instantiated at i8,i16,i32,i64,u
              "(C01 decides encode == reference) followed by from_term"]
 ASSUMPTIONS = c01.ASSUMPTIONS + ["wire harnesses start from the reference encoding of the value's width class; that `to_bytes` emits "
                                  "exactly these bytes is decided by C01 (c01_enc__*) plus c15_toterm_*"]
-OUTSIDE = ["strings longer than 2 bytes, sequences, maps, structs, enums, nestings (BTreeMap/Vec-of-terms construction under CBMC)"]
+OUTSIDE = ["to_term of a char (char::to_string is a symbolic-size allocation under CBMC; the deserialising side is decided on a String built with a concrete length)", "strings longer than 2 bytes, sequences, maps, structs, enums, nestings (BTreeMap/Vec-of-terms construction under CBMC)"]
 
 INTS = [("i8", "vk::i8()"), ("i16", "vk::i16()"), ("i32", "vk::i32()"), ("i64", "vk::i64()"), ("u8", "vk::u8()"), ("u16", "vk::u16()"),
         ("u32", "vk::u32()")]
@@ -54,10 +54,10 @@ def generate(tier, seed):
         ("c15_term__f64", "    term_rt::<f64>(vk::f64_finite());", "every finite f64"),
         ("c15_term__f32", "    let f = vk::f32_bits(); vk::assume(!f.is_nan());\n    term_rt::<f32>(f);", "every non-NaN f32"),
         ("c15_term__bool", "    term_rt::<bool>(vk::bool());", "bool"),
-        ("c15_term__char_len1", "    let c = vk::char(); vk::assume(c.len_utf8() == 1);\n    term_rt::<char>(c);", "every 1-byte char"),
-        ("c15_term__char_len2", "    let c = vk::char(); vk::assume(c.len_utf8() == 2);\n    term_rt::<char>(c);", "every 2-byte char"),
-        ("c15_term__char_len3", "    let c = vk::char(); vk::assume(c.len_utf8() == 3);\n    term_rt::<char>(c);", "every 3-byte char"),
-        ("c15_term__char_len4", "    let c = vk::char(); vk::assume(c.len_utf8() == 4);\n    term_rt::<char>(c);", "every 4-byte (non-BMP) char"),
+        ("c15_term__char_string_len1", "    deser_char_string::<1>();", "from_term::<char> of the String term of every 1-byte char"),
+        ("c15_term__char_string_len2", "    deser_char_string::<2>();", "from_term::<char> of the String term of every 2-byte char"),
+        ("c15_term__char_string_len3", "    deser_char_string::<3>();", "from_term::<char> of the String term of every 3-byte char"),
+        ("c15_term__char_string_len4", "    deser_char_string::<4>();", "from_term::<char> of the String term of every 4-byte char"),
         ("c15_term__unit", "    term_rt::<()>(());", "unit"),
         ("c15_term__option_i64", "    let v = if vk::bool() { Some(vk::i64()) } else { None };\n    term_rt::<Option<i64>>(v);", "Option<i64>"),
         ("c15_term__tuple", "    term_rt::<(i64, u8)>((vk::i64(), vk::u8()));", "(i64, u8)"),
